@@ -21,13 +21,14 @@ FMT = {"UINT8": "B", "INT8": "b", "UINT16": "H", "INT16": "h", "UINT32": "I", "I
 SIZE = {"UINT8": 1, "INT8": 1, "UINT16": 2, "INT16": 2, "UINT32": 4, "INT32": 4, "UINT64": 8, "INT64": 8}
 EXT = {"none": "", "gzip": ".gz", "bzip2": ".bz2", "lzma": ".xz", "sie": ".sie", "text": ".txt"}
 MODEL_ENC = {"none": "r", "gzip": "r", "bzip2": "b", "text": "t"}
-FLAGS = ["fix_bz_rewind", "fix_bz_eof", "fix_here", "fix_text_pseudo", "fix_leak", "fix_negseek"]
+FLAGS = ["fix_bz_rewind", "fix_bz_eof", "fix_here", "fix_text_pseudo", "fix_leak", "fix_negseek", "fix_phase_sign"]
 KEYS = {"fix_bz_rewind": "C02/bzip2/seek-to-before-window",
         "fix_bz_eof": "C02/bzip2/read-reaching-eof",
         "fix_here": "C02/phase/input-start-minus-one-read-as-GD_HERE",
         "fix_text_pseudo": "C02/text/pseudo-position-before-frameoffset",
         "fix_leak": "C02/recurse-level-leak-on-GD_E_RANGE",
-        "fix_negseek": "C02/raw/all-padding-read-seeks-negative"}
+        "fix_negseek": "C02/raw/all-padding-read-seeks-negative",
+        "fix_phase_sign": "C17/phase/pointer-shift-applied-with-wrong-sign"}
 E_RANGE, E_RECURSE, E_DOMAIN, E_IO = -8, -10, -28, -5
 
 
